@@ -128,6 +128,12 @@ def rule_temp_rename(chk, fb, eps):
             tmp = is_tmp(fb, at, tmemo)
             chk.ob(ra, "%s:create#%d" % (d, n), tmp, where="%s:%s" % (b["file"], t["ln"]),
                    detail="file created through %s at a path %s" % (t["fn"].split("::")[-1], "derived from the temporary name" if tmp else "that is NOT a temporary name (the caller's destination is written in place)"))
+        # nothing but the rename touches the destination: every fs::remove_* on the save path removes the temp file
+        for n, (bi, t) in enumerate(fl.calls(lambda t: t.get("fn", "").startswith("std::fs::remove_"))):
+            at = fl.atoms(t["args"][0])
+            tmp = is_tmp(fb, at, tmemo)
+            chk.ob(ra, "%s:remove#%d" % (d, n), tmp, where="%s:%s" % (b["file"], t["ln"]),
+                   detail="%s removes %s" % (t["fn"].split("::")[-1], "the temporary file" if tmp else "a path that is not the temporary name (the destination disappears before the rename: a failure in between leaves neither the old nor the new file)"))
         renames = [(bi, t) for bi, t in fl.calls(lambda t: t.get("fn") == "std::fs::rename")]
         if not renames:
             chk.ob(ra, "%s:rename" % d, False, where=fb.loc(d), detail="no fs::rename: the destination is not replaced atomically")
@@ -260,6 +266,39 @@ def rule_flush(chk, fb, eps):
                    detail="BufWriter created here; %s" % ("a checked flush precedes the rename on every path" if ok else "NO checked flush precedes the rename: data still in the buffer is written by Drop, which discards the error, and the truncated temp file is renamed over the destination"))
 
 
+def rule_stream_flush(chk, fb, eps):
+    """Compound-file streams buffer their tail and write it in Drop, which cannot report an error: a stream that was
+    written to must be flushed (result checked) before it goes out of scope."""
+    rs = chk.rule(
+        "C13.b.stream",
+        "compound-file streams are flushed and checked: every cfb stream created on the save path and written to is flushed with the result used, after its last write, on every path",
+        floor=2,
+    )
+    seen = set()
+    for root in eps:
+        for d in sorted(crate_reach(fb, root)):
+            if d in seen:
+                continue
+            seen.add(d)
+            b = fb.mir[d]
+            fl = Flow(fb, b)
+            creates = [(bi, t) for bi, t in fl.calls(lambda t: t.get("fn", "").endswith("::create_stream") and "cfb::" in t["fn"])]
+            if not creates:
+                continue
+            cfg = CFG(b)
+            chk.touch(d)
+            for n, (bi, t) in enumerate(creates):
+                name = next((a.get("s") for a in t["args"] if isinstance(a.get("s"), str)), None) or next((x[1] for a in t["args"] for x in fl.atoms(a) if x[0] == "const" and isinstance(x[1], str)), "stream#%d" % n)
+                mine = lambda ct: ct["args"] and any(x[0] == "call" and x[2] == bi for x in fl.atoms(ct["args"][0]))
+                writes = [ci for ci, ct in fl.calls() if mine(ct) and ct.get("orig", ct.get("fn", "")).split("::")[-1] in ("write_all", "write", "write_fmt")]
+                flushes = [ci for ci, ct in fl.calls() if mine(ct) and ct.get("orig", ct.get("fn", "")).split("::")[-1] == "flush" and fl.dest_used(ci)]
+                errb = {x for x in cfg.reach if (b["blocks"][x]["t"]["k"] == "call" and "from_residual" in b["blocks"][x]["t"].get("fn", "")) or _assigns_err(b, x)}
+                # from a write, no successful return is reachable without passing a checked flush (error returns aside)
+                ok = bool(writes) and bool(flushes) and not any(e in cfg.reachable(w, avoid=set(flushes) | errb) for w in writes for e in cfg.exits)
+                chk.ob(rs, "%s:%s" % (d, name), ok, where="%s:%s" % (b["file"], t["ln"]),
+                       detail="stream %r: %d write(s), %d checked flush(es); %s" % (name, len(writes), len(flushes), "every write is followed by a checked flush" if ok else "a write is not followed by a checked flush: the tail is written by Drop, which swallows the error, and the save reports success"))
+
+
 def rule_results(chk, fb, eps):
     rc = chk.rule(
         "C13.c",
@@ -381,6 +420,7 @@ def run(chk, fb, tier):
         chk.ob("C13.anchor", "entry:%s" % d, True, where=fb.loc(d), nontrivial=False)
     rule_temp_rename(chk, fb, eps)
     rule_flush(chk, fb, eps)
+    rule_stream_flush(chk, fb, eps)
     rule_results(chk, fb, eps)
     rule_partial_writes(chk, fb, eps)
     chk.assume("fs::rename within one directory replaces the destination atomically (POSIX rename)")
